@@ -6,17 +6,24 @@ From V Require Export CaseLib TLSSpec.
 Record server := mkSrv { s_ca : nat; s_names : list bytes; s_max_version : nat }.
 
 (* one handshake attempted with the returned configuration (used the way http.Transport uses it: the dialled host
-   name is the server name when the configuration has none): success, and the client leaf certificate the server
-   received (0 = none) *)
-Inductive hsobs := HS (s : server) (ok : bool) (client_cert : nat).
+   name is the server name when the configuration has none): success, and the client certificates the server
+   received, all of them, in wire order (leaf first; [] = none) *)
+Inductive hsobs := HS (s : server) (ok : bool) (client_chain : list nat).
 
-(* o: the options; load_ok/marshal_ok/x509_ok/ca_read: what the standard library answers about the material of
-   this case (recorded by the harness by asking it directly); res: what TLSClientAuth returned, projected;
+(* o: the options; load_ok/chain/marshal_ok/x509_ok/ca_read: what the standard library answers about the material of
+   this case AT THE MOMENT OF THE CALL (recorded by the harness by asking it directly; chain = the CERTIFICATE blocks of
+   the certificate file); res: what TLSClientAuth returned, projected;
    rest_zero: every other security-relevant field of the tls.Config is left at its zero value;
    sys: the content of the system pool of the harness process; dial: the host name dialled. *)
-Inductive case :=
-| CTLS (o : opts) (load_ok marshal_ok x509_ok : bool) (ca_read : option (list nat))
+Inductive step :=
+| CTLS (o : opts) (load_ok : bool) (chain : list nat) (marshal_ok x509_ok : bool) (ca_read : option (list nat))
        (res : result) (rest_zero : bool) (sys : list nat) (dial : bytes) (hs : list hsobs).
+
+(* One: a single call. Hist: several calls in ONE process on the same file paths, the harness rewriting / replacing /
+   removing the files between the calls; each step carries the oracle answers about the material of its moment. The
+   list holds every call in order, followed by the re-inspection (after the last call) of every configuration an earlier
+   call returned whose projection is no longer what it was. *)
+Inductive case := One (s : step) | Hist (l : list step).
 
 Definition config_eqb (a b : config) : bool :=
   Nat.eqb (c_min_version a) (c_min_version b) && Bool.eqb (c_insecure a) (c_insecure b) &&
@@ -49,7 +56,7 @@ Definition hs_ok (sys : list nat) (dial : bytes) (c : config) (h : hsobs) : bool
   match h with
   | HS s ok cc =>
     Bool.eqb ok (hs_expected sys dial c s) &&
-    (if ok then Nat.eqb cc (match c_certs c with (ce, _) :: _ => ce | [] => 0 end) else true)
+    (if ok then bytes_eqb cc (match c_certs c with (ch, _) :: _ => ch | [] => [] end) else true)
   end.
 
 Definition hs_all (sys : list nat) (dial : bytes) (r : result) (hs : list hsobs) : bool :=
@@ -58,12 +65,20 @@ Definition hs_all (sys : list nat) (dial : bytes) (r : result) (hs : list hsobs)
   | Error _ => match hs with [] => true | _ => false end
   end.
 
-Definition check_case (c : case) : N :=
+Definition check_step (c : step) : N :=
   match c with
-  | CTLS o load_ok marshal_ok x509_ok ca_read res rest_zero sys dial hs =>
+  | CTLS o load_ok chain marshal_ok x509_ok ca_read res rest_zero sys dial hs =>
     let e := {| load_pair_ok := fun _ _ => load_ok; marshal_ec_ok := fun _ => marshal_ok;
-                x509_pair_ok := fun _ _ => x509_ok; read_ca := fun _ => ca_read |} in
+                x509_pair_ok := fun _ _ => x509_ok; file_chain := fun _ => chain; read_ca := fun _ => ca_read |} in
     let m := tls_client_auth e o in
     verdict (result_eqb res m && rest_zero && hs_all sys dial m hs)
             (c18_holds e o res && rest_zero && hs_all sys dial res hs)
+  end.
+
+(* a history is judged call by call: the model of every call is the single-call function on the material of that call
+   (TLSConfig.tls_history is that map), so the verdict is the union of the verdicts of the steps *)
+Definition check_case (c : case) : N :=
+  match c with
+  | One s => check_step s
+  | Hist l => fold_right (fun s acc => N.lor (check_step s) acc) 0%N l
   end.
